@@ -1767,3 +1767,12 @@ for _pid in ("C09", "C10"):
 for _pid in ("C07", "C10"):
     V("%s-chain-reference-memoised" % _pid.lower(), _pid, "fire", UT, "from functools import reduce\n", "from functools import reduce, lru_cache\n", more=[(UT, "def chain_graph(p):", "@lru_cache(maxsize=None)\ndef chain_graph(p):")],
       rule="CHAIN.test.reference", what="a caller that edits chain_graph(p)'s result edits the reference is_chain_graph compares with")
+
+# ------------------------------------------------------------------------------- round 11 inspired (C03: two harmless-looking edits that together accept self-loops)
+_K_PRE = "    if only_undirected(A).sum() > 0:\n        raise ValueError(\"The given graph is not a DAG\")"
+_K_PRE2 = "    if len(undirected_edges(A)) > 0:\n        raise ValueError(\"The given graph is not a DAG\")"
+_K_LOOP = "        for j in ch(i, A):\n            A[i, j] = 0\n            if len(pa(j, A)) == 0:\n                sinks.append(j)\n"
+_K_LOOP2 = "        children = ch(i, A)\n        A[i, :] = 0\n        sinks += [j for j in children if len(pa(j, A)) == 0]\n"
+V("c03-row-clear-erases-self-loops", "C03", "fire", UT, _K_PRE, _K_PRE2, more=[(UT, _K_LOOP, _K_LOOP2)], rule="CYCLES.self-loop", what="pre-check skips the diagonal and the loop clears whole rows: a self-loop below another parent is accepted")
+V("c03-row-clear-alone", "C03", "undecided", UT, _K_LOOP, _K_LOOP2, what="whole-row clear with the full pre-check: self-loops are rejected before the loop")
+V("c03-silent-precheck-edges-alone", "C03", "silent", UT, _K_PRE, _K_PRE2, what="pre-check skips the diagonal, but the loop never clears a diagonal entry: the leftover test sees it")
